@@ -3,22 +3,17 @@
   probing ply), depth/type packing, quality.
 -/
 import ChessVerif.Model.Transp
+import ChessVerif.Spec.AbstractTT
 
 namespace ChessVerif.Model.Transp
 open ChessVerif
-
-/-- `Inf - MaxPlies`: scores strictly beyond `±mateThreshold` carry a mate distance. -/
-def mateThreshold : Int := Gen.Transp.inf - Gen.Transp.maxPlies
+open ChessVerif.Spec.AbstractTT (mateThreshold rebased)
 
 /-- The four threshold literals of `Insert` and `Value` are `±(Inf - MaxPlies)`. -/
 theorem thresholds_eq :
     Gen.Transp.insertHiThreshold = mateThreshold ∧ Gen.Transp.insertLoThreshold = -mateThreshold ∧
     Gen.Transp.valueHiThreshold = mateThreshold ∧ Gen.Transp.valueLoThreshold = -mateThreshold := by
   decide
-
-/-- The score a probe at ply `q` must return for a score `v` stored at ply `p`. -/
-def rebased (v p q : Int) : Int :=
-  if v > mateThreshold then v + p - q else if v < -mateThreshold then v - p + q else v
 
 /-- What `Insert` stores, when nothing wraps: mate scores are made relative to the root. -/
 theorem storedValue_eq (v p : Int) (hv : -32640 ≤ v ∧ v ≤ 32640) (hp : 0 ≤ p ∧ p ≤ 127) :
